@@ -56,7 +56,7 @@ def is_harness_error(rec):
 
 
 def run_cases(spec, workdir, *, prop, judge, gen_kw=None, choose_cfgs=default_cfgs, monitors=(), extra_counters=(),
-              nontrivial=None, run_kw=None):
+              nontrivial=None, run_kw=None, per_run=None):
     rng = random.Random(spec["seed"])
     res = new_result(extra_counters)
     gen_kw = dict(gen_kw or {})
@@ -72,7 +72,10 @@ def run_cases(spec, workdir, *, prop, judge, gen_kw=None, choose_cfgs=default_cf
         cfgs = choose_cfgs(rng)
         for cfg in cfgs:
             wd = os.path.join(workdir, f"r{k}")
-            rec = runner.run_recipe(recipe, cfg, wd, monitors=monitors, **(run_kw or {}))
+            kw = dict(run_kw or {})
+            if per_run is not None:
+                kw.update(per_run(recipe, cfg))
+            rec = runner.run_recipe(recipe, cfg, wd, monitors=monitors, **kw)
             res["counters"]["runs"] += 1
             res["evaluations"] += 1
             bump(res["hist"]["config"], cfg_name(cfg))
@@ -98,19 +101,23 @@ def run_cases(spec, workdir, *, prop, judge, gen_kw=None, choose_cfgs=default_cf
                 res["nontrivial"].append(gen.rhash([recipe, cfg]))
             rec.pop("_vals", None)
             rec.pop("_outs", None)
+            rec.pop("_plan", None)
             shutil.rmtree(wd, ignore_errors=True)
         if k < 2 and spec.get("shard", 0) == 0:
             res["samples"].append({"recipe": recipe, "configs": cfgs})
     return res
 
 
-def replay_case(rep, workdir, *, prop, judge, monitors=(), extra_counters=(), run_kw=None):
+def replay_case(rep, workdir, *, prop, judge, monitors=(), extra_counters=(), run_kw=None, per_run=None):
     res = new_result(extra_counters)
     case = rep["case"]
     recipe, cfg = case["recipe"], case["cfg"]
     np_vals = gen.np_eval(recipe)
     wd = os.path.join(workdir, "replay")
-    rec = runner.run_recipe(recipe, cfg, wd, monitors=monitors, **(run_kw or {}))
+    kw = dict(run_kw or {})
+    if per_run is not None:
+        kw.update(per_run(recipe, cfg))
+    rec = runner.run_recipe(recipe, cfg, wd, monitors=monitors, **kw)
     res["evaluations"] = 1
     res["counters"]["runs"] = 1
     viols = judge(recipe, np_vals, cfg, rec, res, wd) or []
